@@ -3,6 +3,7 @@ pub mod common;
 pub mod c01;
 pub mod c04;
 pub mod c05;
+pub mod c07;
 pub mod c09;
 pub mod c14;
 pub mod c15;
